@@ -17,7 +17,7 @@ from decimal import Decimal
 import core
 from core import Result
 import props.c14 as c14
-from props.c14 import bits, unbits, canon, call, same, nextafter, load_real, edge_values, grid, V, ref_psat, ref_b23p, T0, need, NoValue
+from props.c14 import neighbours, o_continuity, ref_tsat, ref_b23t, bits, unbits, canon, call, same, nextafter, load_real, edge_values, grid, V, ref_psat, ref_b23p, T0, need, NoValue
 
 sys.path.insert(0, str(core.VERIF / 'harness' / 'translate'))
 import thermo  # noqa: E402
@@ -88,6 +88,16 @@ def ref_psat67(t):
 def ref_b23p67(t):
     th = (t + 273.15) / TC1
     return PC1 * (1.574373327e1 - 3.417061978e1 * th + 1.931380707e1 * th * th)
+
+
+def ref_tsat67(p):
+    lo, hi = 0.0, TC1_C
+    for _ in range(200):
+        m = 0.5 * (lo + hi)
+        if not (lo < m < hi): break
+        if ref_psat67(m) < p: lo = m
+        else: hi = m
+    return 0.5 * (lo + hi)
 
 
 def near(p, q):
@@ -609,6 +619,88 @@ def oracle(ctx, I, T, res, rng, scale=1.0):
             okh = False
         hyp_h[1] += 1; hyp_h[0] += bool(okh)
     res.hyp['steam_fraction_monotone: hl1 < hs1 (and hl2 < hs2, hl1 <= hs2 for two stages) at the separator pressures explored'] = hyp_h
+    singular_stage(ctx, I, T, res, rng, apply, CD, n)
+
+
+FNS15 = ['cowat', 'supst', 'sat', 'b23p', 'region', 'visw', 'viss']
+
+
+def singular_stage(ctx, I, T, res, rng, apply, CD, n):
+    """singularity-directed search on the IFC-67 routines (see props/c14.py singular_stage): roots of every denominator,
+    square-root argument and comparison of the translated t2thermo routines (or of the comparisons against constants
+    traced in the real code when the source cannot be translated) along lines through the common range; the property
+    clauses are evaluated at each root and a few ulps / 1e-12 / 1e-9 / 1e-6 around it, plus a jump test."""
+    try:
+        _, MT = thermo.modules(core.REPO)
+        P, mode = thermo.Prober(MT), 'translated-tree'
+    except Exception:
+        P, mode = thermo.TraceProber(T, core.REPO / 't2thermo.py', FNS15), 'real-code-comparisons'
+        ctx.notes.append('singularity stage falls back to comparisons traced in the real code (translator failed)')
+    N = n(160, 500) if mode == 'translated-tree' else n(60, 200)
+    tc97 = 647.096 - 273.15
+    psl = lambda t: max(ref_psat(t), ref_psat67(t)) * (1 + 1e-9)
+    lines = [('sat', lambda x: (x, False), 0, 0.01, TC1_C, False), ('b23p', lambda x: (x,), 0, 350., 590., False)]
+    for t in [0.01, 60., 150., 250., 330., 350.] + [rng.uniform(0.01, 350.) for _ in range(2)]:
+        lines.append(('cowat', (lambda t_: lambda x: (t_, x, False))(t), 1, psl(t), 100e6, True))
+    for p in [1e5, 1e6, 1e7, 5e7, 100e6] + [10 ** rng.uniform(5, 8)]:
+        thi = 350. if p >= psl(350.) else min(ref_tsat(p), ref_tsat67(p)) * (1 - 1e-9)
+        if thi > 0.02: lines.append(('cowat', (lambda p_: lambda x: (x, p_, False))(p), 0, 0.01, thi, False))
+    for t in [0.01, 100., 300., 350., 450., 590., 700., 800.] + [rng.uniform(0.01, 800.) for _ in range(2)]:
+        lines.append(('supst', (lambda t_: lambda x: (t_, x, False))(t), 1, 1.0, steam_pmax(I, T, t), True))
+    for p in [1.0, 1e3, 1e5, 1e6, 1e7, 5e7, 100e6] + [10 ** rng.uniform(0, 8)]:
+        if p < min(ref_psat(350.), ref_psat67(350.)): tlo = max(ref_tsat(p), ref_tsat67(p)) * (1 + 1e-9)
+        elif p < min(ref_b23p(590.), ref_b23p67(590.)):
+            tlo = 350.
+            for _ in range(60):
+                if steam_pmax(I, T, tlo) >= p: break
+                tlo += (590. - tlo) * 0.1 + 1e-3
+        else: tlo = 590.0001
+        lines.append(('supst', (lambda p_: lambda x: (x, p_, False))(p), 0, max(tlo, 0.01), 800., False))
+    for t in [0.01, 100., 349., 351., 500., 600., 800.]:
+        lines.append(('region', (lambda t_: lambda x: (t_, x))(t), 1, 1e-3, 101e6, True))
+    for p in [1.0, 1e5, 1e7, 2e7, 5e7, 100e6]:
+        lines.append(('region', (lambda p_: lambda x: (x, p_))(p), 0, 0.001, 801., False))
+
+    def inside(fn, a):
+        if fn == 'cowat': return 0.01 <= a[0] <= 350. and psl(a[0]) <= a[1] <= 100e6
+        if fn == 'supst': return 0.01 <= a[0] <= 800. and 0 < a[1] <= steam_pmax(I, T, a[0])
+        if fn == 'sat': return 0.01 <= a[0] <= TC1_C
+        if fn == 'b23p': return 350. <= a[0] <= 590.
+        return True
+
+    def at_point(fn, a):
+        if fn == 'region':
+            apply('regions', {'t': a[0], 'p': a[1]}); return
+        if fn in ('cowat', 'supst', 'sat'):
+            apply('bounds', {'fn': fn, 'args': [x for x in a if not isinstance(x, bool)]})
+        if not inside(fn, a): return
+        if fn == 'sat':
+            if a[0] <= tc97: apply('sat', {'t': a[0]})
+            apply('tsat', {'t': a[0], 'bounds': False})
+        elif fn in ('cowat', 'supst'):
+            c = {'t': a[0], 'p': a[1]}
+            apply('liquid' if fn == 'cowat' else 'steam', c)
+            if CD is not None:
+                apply('potential_tree', dict(c, phase='liquid' if fn == 'cowat' else 'steam'), lambda I_, T_, x: o_potential_tree(I_, T_, CD, x))
+
+    seen = set()
+    for fn, mk, var, lo, hi, log in lines:
+        if not lo < hi: continue
+        for key, x, kind in thermo.find_roots(P, fn, mk, lo, hi, n=N, log=log):
+            tag = (fn, key, repr(x))
+            if tag in seen: continue
+            seen.add(tag)
+            res.count('singular-point:%s:%s:%s' % (mode, key.split('#')[0].split('@')[0], kind))
+            res.sample({'singular point': P.describe(key), 'at': [v for v in mk(x)], 'kind': kind}, cap=14)
+            for xn in neighbours(x):
+                at_point(fn, mk(xn))
+            if fn != 'region' and x != 0:
+                a0 = list(mk(x))
+                pts = []
+                for f in (1 - 3e-9, 1 - 1e-9, 1 + 1e-9, 1 + 3e-9):
+                    b = list(a0); b[var] = x * f; pts.append(b)
+                if all(inside(fn, b) for b in pts):
+                    apply('continuity', {'fn': fn, 'args': a0, 'var': var}, lambda I_, T_, cc: o_continuity(T_, cc))
 
 
 def search(ctx, seconds, res):
@@ -638,6 +730,8 @@ def replay(ctx, payload):
         if name == 'potential_tree':
             _, MT = thermo.modules(core.REPO)
             r = o_potential_tree(I, T, thermo.Compiled(MT, thermo.DecimalBackend()), c)
+        elif name == 'continuity':
+            r = o_continuity(T, c)
         else:
             r = CLAUSES[name](I, T, c)
     except NoValue as e:
